@@ -60,16 +60,22 @@ Definition run_step (g : gf) (traces : list trace) (s : step) : bool * list trac
       end
   end.
 
-Fixpoint run_steps (g : gf) (traces : list trace) (ss : list step) : bool :=
+(* index of the first step on which model and implementation differ *)
+Fixpoint first_bad (g : gf) (traces : list trace) (ss : list step) (i : nat) : option nat :=
   match ss with
-  | [] => true
-  | s :: r => let '(ok, traces') := run_step g traces s in ok && run_steps g traces' r
+  | [] => None
+  | s :: r => let '(ok, traces') := run_step g traces s in
+              if ok then first_bad g traces' r (S i) else Some i
   end.
 
 Definition gcase := (gf * list step)%type.
+(* flat list: case index, step index, case index, step index, ... *)
 Fixpoint gmismatches_from (n : nat) (cs : list gcase) : list nat :=
   match cs with
   | [] => []
-  | (g, ss) :: r => if run_steps g [] ss then gmismatches_from (S n) r else n :: gmismatches_from (S n) r
+  | (g, ss) :: r => match first_bad g [] ss 0 with
+                    | None => gmismatches_from (S n) r
+                    | Some i => n :: i :: gmismatches_from (S n) r
+                    end
   end.
 Definition gmismatches := gmismatches_from 0.
